@@ -47,6 +47,7 @@ if sys.version_info >= (3, 12):
     from guppylang_internals.tys.parsing import parse_parameter
 
 if TYPE_CHECKING:
+    from guppylang_internals.tys.arg import Argument
     from guppylang_internals.tys.param import Parameter
 
 
@@ -392,9 +393,15 @@ def handle_implicit_self_arg(
         raise GuppyError(err)
 
     # The generic params inherited from the parent type should appear first in the
-    # parameter list, so we have to shift the existing ones
-    for name, param in ctx.param_var_mapping.items():
-        ctx.param_var_mapping[name] = param.with_idx(param.idx + len(self_defn.params))
+    # parameter list, so we have to shift the existing ones. Note that the types of
+    # const params may refer to earlier params, so those references need to be shifted
+    # as well.
+    shifted: list[Argument] = []
+    for name, param in sorted(ctx.param_var_mapping.items(), key=lambda kv: kv[1].idx):
+        param = param.with_idx(param.idx + len(self_defn.params))
+        param = param.instantiate_bounds(shifted)
+        ctx.param_var_mapping[name] = param
+        shifted.append(param.to_bound())
 
     ctx.param_var_mapping.update({param.name: param for param in self_defn.params})
     self_args = [param.to_bound() for param in self_defn.params]
